@@ -2,7 +2,7 @@
    Atomic steps are exactly the segments between the yield points of the schedule driver (vp/sched_driver.py) on the real objects:
    a lock-protected section (tx_queue_append / tx_queue_clear / the partition in clck_tick), the release of the lock, and every single read or write of the
    shared attributes `running` and `fh` (CPython's GIL makes one attribute load/store atomic).
-   mirrors: Transceiver.clck_tick, BurstForwarder.forward_msg -> Transceiver.get_tx_freq (reads self.fh twice when hopping is on),
+   mirrors: Transceiver.clck_tick, BurstForwarder.forward_msg -> Transceiver.get_tx_freq (reads self.fh once into a local),
    Transceiver.recv_data_msg, power_event_handler (running := x; tx_queue_clear(); disable_fh()), CTRL POWERON (reads running first).
    A burst is (id, frame number). *)
 From Coq Require Import ZArith List Bool.
@@ -16,10 +16,9 @@ Inductive tick_pc :=
 | TK1                                   (* about to read `running` *)
 | TK2                                   (* about to take the queue lock *)
 | TK2u (emit drop : list msg)           (* lock released (partition done inside the section), about to go on *)
-| TK3 (emit drop : list msg)            (* forwarding: about to read `fh` (is None?) for the head of emit *)
-| TK4 (emit drop : list msg)            (* hopping: about to read `fh` again (.resolve) *)
+| TK3 (emit drop : list msg)            (* forwarding: about to read `fh` (once; a local reference is used afterwards) for the head of emit *)
 | TDone
-| TCrash (lost : list msg).             (* AttributeError in the clock thread: the bursts it held are gone *)
+| TCrash (lost : list msg).             (* an exception in the clock thread: the bursts it held are gone (no transition produces it any more) *)
 
 Inductive sock_op := Arrive (m : msg) | PowerOff | PowerOn.
 Inductive sock_pc := S0 | SA1 (m : msg) | SA2 (m : msg) | SA2u | SP1 | SP2 | SP2u | SP3 | SP4 | SO1 | SO2 | SDone.
@@ -27,11 +26,14 @@ Inductive sock_pc := S0 | SA1 (m : msg) | SA2 (m : msg) | SA2u | SP1 | SP2 | SP2
 Record st := { running : bool; queue : list msg; fhset : bool; tpc : tick_pc; spc : sock_pc;
                accepted : list msg; emitted : list msg; stale : list msg; cleared : list msg; rejected : list msg }.
 
+(* frame numbers are compared modulo the hyperframe: 0 = due, less than half a hyperframe = ahead, otherwise behind *)
+Definition HF : Z := 2715648.
+Definition delta (mfn f : Z) : Z := (mfn - f) mod HF.
 Fixpoint part (f : Z) (q : list msg) : list msg * list msg * list msg :=     (* (drop, emit, wait) *)
   match q with
   | [] => ([], [], [])
   | m :: r => let '(d, e, w) := part f r in
-              if snd m <? f then (m :: d, e, w) else if snd m =? f then (d, m :: e, w) else (d, e, m :: w)
+              if delta (snd m) f =? 0 then (d, m :: e, w) else if delta (snd m) f <? HF / 2 then (d, e, m :: w) else (m :: d, e, w)
   end.
 
 Definition with_t (s : st) (pc : tick_pc) (q em sl : list msg) : st :=
@@ -54,9 +56,7 @@ Definition tick_step (f : Z) (s : st) : st :=
   | TK2u [] d => with_t s TDone (queue s) (emitted s) (stale s ++ d)
   | TK2u e d => with_t s (TK3 e d) (queue s) (emitted s) (stale s)
   | TK3 [] d => with_t s TDone (queue s) (emitted s) (stale s ++ d)
-  | TK3 (m :: rest) d => if fhset s then with_t s (TK4 (m :: rest) d) (queue s) (emitted s) (stale s) else after_fwd s m rest d
-  | TK4 [] d => with_t s TDone (queue s) (emitted s) (stale s ++ d)
-  | TK4 (m :: rest) d => if fhset s then after_fwd s m rest d else with_t s (TCrash (m :: rest ++ d)) (queue s) (emitted s) (stale s)
+  | TK3 (m :: rest) d => after_fwd s m rest d
   | TDone => s
   | TCrash l => s
   end.
